@@ -516,3 +516,103 @@ def c_queue_clear(repo):
     fn.body.insert(1 if isinstance(fn.body[0], ast.Expr) else 0,
                    ast.Expr(ast.Call(ast.Attribute(copy.deepcopy(q), 'clear', ast.Load()), [], [])))
     return {'utils': src(t)}
+
+
+# ---- conservation / serialisers (C08, C01, C09, C07)
+
+@control(['C08', 'C01', 'C09'], 'required-arg-loop-no-rollback', ['R08.a', 'R09.c'], 'delete the spacer rollback at the end of the required-argument loop')
+def c_no_spacer_rollback(repo):
+    t = parse(repo, 'reader')
+    fn = find_func(t, 'read_arg_required')
+    w = _first(fn, lambda n: isinstance(n, ast.While))
+    # the last `if spacer: src.backward(1)` directly in the loop body
+    for i in range(len(w.body) - 1, -1, -1):
+        s_ = w.body[i]
+        if isinstance(s_, ast.If) and any(is_call_attr(x, 'backward') for x in ast.walk(s_)):
+            del w.body[i]
+            return {'reader': src(t)}
+    raise NotApplicable('rollback statement')
+
+
+@control(['C08', 'C07'], 'env-closer-discard-unguarded', ['R08.a', 'R08.b', 'R07.c'], 'discard the closer of an environment also on the error path (elif not error -> else)')
+def c_env_else(repo):
+    t = parse(repo, 'reader')
+    fn = find_func(t, 'read_env')
+    for n in ast.walk(fn):
+        if isinstance(n, ast.If) and len(n.orelse) == 1 and isinstance(n.orelse[0], ast.If) \
+                and any(is_call_attr(x, 'forward') for x in ast.walk(n.orelse[0])):
+            n.orelse = n.orelse[0].body
+            return {'reader': src(t)}
+    raise NotApplicable('elif not error')
+
+
+@control(['C08', 'C01'], 'env-serialiser-filtering-view', ['R08.e'], 'let the environment serialiser print the whitespace-filtering contents view')
+def c_env_str_view(repo):
+    t = parse(repo, 'data')
+    fn = find_func(t, '__str__', cls='TexEnv')
+
+    def pred(n):
+        return isinstance(n, ast.Attribute) and n.attr == '_contents'
+
+    def make(n):
+        n.attr = 'contents'
+        return n
+    replace_expr(fn, pred, make)
+    return {'data': src(t)}
+
+
+@control(['C08', 'C01', 'C12'], 'math-closer-literal', ['T'], 'change the closing literal of the \\(..\\) math class')
+def c_math_literal(repo):
+    t = parse(repo, 'data')
+    for st_ in t.body:
+        if isinstance(st_, ast.ClassDef) and st_.name == 'TexMathEnv':
+            for a in st_.body:
+                if isinstance(a, ast.Assign) and a.targets[0].id == 'end':
+                    a.value = ast.Constant('\\]')
+                    return {'data': src(t)}
+    raise NotApplicable('TexMathEnv.end')
+
+
+@control(['C08', 'C01'], 'item-expression-dropped', ['R08.a'], 'do not keep the expressions read inside an item')
+def c_item_dropped(repo):
+    t = parse(repo, 'reader')
+    fn = find_func(t, 'read_item')
+    w = _first(fn, lambda n: isinstance(n, ast.While))
+    for i, s_ in enumerate(w.body):
+        if isinstance(s_, ast.Expr) and is_call_attr(s_.value, 'append') and s_.value.args \
+                and isinstance(s_.value.args[0], ast.Call):
+            w.body[i] = ast.Expr(s_.value.args[0])
+            return {'reader': src(t)}
+    raise NotApplicable('append in item loop')
+
+
+@control(['C08'], 'invented-literal', ['R08.d'], 'wrap a bare-token argument in braces plus a space')
+def c_invented(repo):
+    t = parse(repo, 'reader')
+    fn = find_func(t, 'read_arg_required')
+    c = _first(fn, lambda n: isinstance(n, ast.Constant) and isinstance(n.value, str) and '%s' in n.value)
+    c.value = c.value.replace('%s', '%s ')
+    return {'reader': src(t)}
+
+
+@control(['C01', 'C11'], 'verbatim-body-stripped', ['R01.a'], 'strip the raw body of a skipped environment')
+def c_verbatim_strip(repo):
+    t = parse(repo, 'reader')
+    fn = find_func(t, 'read_skip_env')
+
+    def pred(n):
+        return is_call_attr(n, 'forward_until')
+
+    def make(n):
+        return ast.Call(ast.Attribute(n, 'strip', ast.Load()), [], [])
+    replace_expr(fn, pred, make)
+    return {'reader': src(t)}
+
+
+@control(['C08'], 'begin-group-kind-unpinned', ['R08.a'], 'accept any group kind after \\begin (drop the brace-group test)')
+def c_begin_unpinned(repo):
+    t = parse(repo, 'reader')
+    fn = find_func(t, 'read_expr')
+    a = _first(fn, lambda n: isinstance(n, ast.Assert) and isinstance(n.test, ast.BoolOp))
+    a.test = a.test.values[0]
+    return {'reader': src(t)}
